@@ -222,7 +222,25 @@ func ruleC10Lookup(p *Prog, r *Result) {
 	})
 	// getPath
 	pp := newPSRule(p, r, "C10.lookup", "bkl.getPath", PSOpts{})
-	objP, partsP := mParam("obj"), mParam("parts")
+	// the value and the remaining path "at hand": the parameters (recursive form) or the loop variables that
+	// start out as the parameters (iterative form)
+	cur := func(name string) TM {
+		return func(t *T) bool {
+			if t == nil {
+				return false
+			}
+			if t.IsParam(name) {
+				return true
+			}
+			if t.Op == "carried" {
+				if info, ok := pp.carried[t.N]; ok && info.Init != nil && info.Init.IsParam(name) {
+					return true
+				}
+			}
+			return false
+		}
+	}
+	objP, partsP := cur("obj"), cur("parts")
 	pp.all("an empty path is the value itself", selectPaths(pp.paths, func(pa *Path) bool { return guardPol(pa, "len", partsP, "==0") == 1 }), "returns obj", returnsExactly(objP, "obj"))
 	rest := selectPaths(pp.paths, func(pa *Path) bool { return guardPol(pa, "len", partsP, "==0") == -1 })
 	pp.all("a path through something that is not a map does not resolve", selectPaths(rest, func(pa *Path) bool { return guardPol(pa, "kind", objP, "map") == -1 }), "ErrRefNotFound", func(pa *Path) (bool, string) {
@@ -234,13 +252,28 @@ func ruleC10Lookup(p *Prog, r *Result) {
 	}), "ErrRefNotFound", func(pa *Path) (bool, string) {
 		return isFailure(pa) && wraps(lastResult(pa), "ErrRefNotFound"), "a missing key yields a value (nil) instead of an error"
 	})
+	tail := func(t *T) bool { return t.Op == "slice" && partsP(t.Args[0]) && t.Args[1].IsConst("1") && (len(t.Args) < 3 || t.Args[2] == nil || t.Args[2].IsConst("end") || t.Args[2].Op == "end") }
 	pp.all("a present key continues with the rest of the path", selectPaths(rest, func(pa *Path) bool {
 		return guardPol(pa, "kind", objP, "map") == 1 && guardPol(pa, "has", objP, TM(first)) == 1
-	}), "getPath(obj[parts[0]], parts[1:])", func(pa *Path) (bool, string) {
-		ok := hasCallEffect(pa, "bkl.getPath", mLookup(objP, first), func(t *T) bool {
-			return t.Op == "slice" && partsP(t.Args[0]) && t.Args[1].IsConst("1")
-		})
-		return ok, "descending does not use the first component as key and the remaining components as the rest of the path"
+	}), "getPath(obj[parts[0]], parts[1:]) — as a call, or as the next round of a loop", func(pa *Path) (bool, string) {
+		if hasCallEffect(pa, "bkl.getPath", mLookup(objP, first), tail) {
+			return true, ""
+		}
+		if pa.End == "iter" {
+			okObj, okParts := false, false
+			for _, v := range pa.Carried {
+				if mLookup(objP, first)(v) {
+					okObj = true
+				}
+				if tail(v) {
+					okParts = true
+				}
+			}
+			if okObj && okParts {
+				return true, ""
+			}
+		}
+		return false, "descending does not use the first component as key and the remaining components as the rest of the path"
 	})
 	// getCross
 	pc := newPSRule(p, r, "C10.cross", "bkl.getCross", PSOpts{NoInline: map[string]bool{"bkl.getCrossDoc": true, "bkl.get": true}})
